@@ -543,3 +543,6 @@ def extra_coverage(results):
 def describe(case):
     x = case['x']
     return f"{x['src'].strip().splitlines()} op={json.dumps(x['op']['recipe'])} vals={json.dumps(x['op']['vals'])[:300]}"
+
+
+export_state, import_state = K.export_state, K.import_state      # the name table travels with replays / amplified runs
